@@ -920,6 +920,10 @@ pub fn c18_stats(cx: &mut Ctx) {
         }
         if let Some(s) = s1.get("SHOW CLIENTS") {
             let hdr = header_of(&s.msgs);
+            // (every listed client belongs to the pool or is an admin: nobody else is connected)
+            for r in rows_of(&s.msgs).iter().filter(|r| col(&hdr, r, "database") != "db" && col(&hdr, r, "database") != "pgcat") {
+                cx.v("C18", "client_listing", "C18/show_clients/ghost_client_of_no_pool", s.done_seq, format!("SHOW CLIENTS lists a client of database {:?} (user {:?}, application {:?}, state {}); no such client is connected", col(&hdr, r, "database"), col(&hdr, r, "user"), col(&hdr, r, "application_name"), col(&hdr, r, "state")));
+            }
             let rows: Vec<Vec<String>> = rows_of(&s.msgs).into_iter().filter(|r| col(&hdr, r, "database") == "db").collect();
             let mut seen: BTreeMap<String, usize> = BTreeMap::new();
             for r in &rows {
@@ -982,7 +986,7 @@ pub fn c18_stats(cx: &mut Ctx) {
         cx.probe("c18_final_sample");
         if let Some(s) = s2.get("SHOW CLIENTS") {
             let hdr = header_of(&s.msgs);
-            let rows: Vec<Vec<String>> = rows_of(&s.msgs).into_iter().filter(|r| col(&hdr, r, "database") == "db").collect();
+            let rows: Vec<Vec<String>> = rows_of(&s.msgs).into_iter().filter(|r| col(&hdr, r, "database") != "pgcat").collect();
             if !rows.is_empty() {
                 let who: Vec<String> = rows.iter().map(|r| format!("{}:{}", col(&hdr, r, "application_name"), col(&hdr, r, "state"))).collect();
                 let kinds: Vec<String> = rows.iter().filter_map(|r| col(&hdr, r, "application_name").strip_prefix("cl").and_then(|x| x.parse::<u32>().ok())).map(|idn| role_of(idn)).collect();
